@@ -183,7 +183,9 @@ PLANS["C04"] = plan_queue_lin(
 PLANS["C05"] = plan_queue_lin(
     "C05", r"^(vyu|nib)_", [], [], True,
     "as C04 but against a bounded FIFO of the configured capacity (failed strong try_push legal only when full; for "
-    "nikolaev_bounded_queue when size + overlapping operations >= capacity; weak vyukov operations may fail spuriously)",
+    "nikolaev_bounded_queue when size + overlapping operations >= capacity; weak vyukov operations may fail spuriously); vyukov_bounded_queue is instantiated with the "
+    "default policy and with policy::default_to_weak<true> (`vyu_dw_*`: the unqualified try_push / try_pop / pop are the weak flavour there, "
+    "the explicitly named *_strong / *_weak operations must behave identically under both policies)",
     ["rejected_under_overlap", "empty_under_overlap"], execs_quick=20000, execs_thorough=200000)
 PLANS["C06"] = plan_queue_lin(
     "C06", r"^(kir|kib)_", [1, 2, 3, 4, 5, 6, 7, 16, 17], [1, 2, 3, 4, 5, 6, 7, 8, 9, 11, 12, 13, 14, 15, 16, 17], True,
